@@ -108,7 +108,9 @@ def _apply(wt, m):
         if s.count(m['old']) != 1:
             return False, f'pattern found {s.count(m["old"])} times'
         open(path, 'w').write(s.replace(m['old'], m['new']))
-        return True, ''
+        p = subprocess.run([sys.executable, '-m', 'py_compile', path],
+                           capture_output=True, text=True)
+        return p.returncode == 0, p.stderr[-300:]
     return False, 'unknown kind'
 
 
@@ -146,16 +148,26 @@ def sensitivity(only=None, tier='quick'):
                                timeout=3000)
             vio = [ln for ln in p.stdout.splitlines()
                    if ln.startswith('VIOLATION') or ln.startswith('  oracle=')]
-            out = 'caught' if p.returncode == 1 else (
-                'MISSED' if p.returncode == 0 else f'harness_error')
-            missed += (out != 'caught')
+            has_v = any(ln.startswith('VIOLATION property=')
+                        for ln in p.stdout.splitlines())
+            if p.returncode == 1 and has_v:
+                out = 'caught'
+            elif p.returncode == 0 and not has_v:
+                out = 'MISSED'
+            else:
+                out = 'harness_error'
+            if m.get('expected') == 'equivalent':
+                # documented equivalent mutant: reported, not counted
+                out = 'equivalent_' + out.lower()
+            else:
+                missed += (out != 'caught')
             results.append({'name': m['name'], 'property': m['property'],
                             'outcome': out, 'wall_s': round(time.time() - t0),
                             'first': vio[1][:300] if len(vio) > 1 else ''})
             print(f'mutant {m["name"]} [{m["property"]}]: {out} '
                   f'({time.time() - t0:.0f}s) {vio[1][:160] if len(vio) > 1 else ""}',
                   flush=True)
-            if out == 'harness_error':
+            if out.endswith('harness_error'):
                 print(p.stdout[-600:], p.stderr[-600:])
         finally:
             subprocess.run(['git', '-C', repo, 'worktree', 'remove',
@@ -172,9 +184,12 @@ def main(args):
             print('SELFTEST determinism FAILED')
             return 2
     if args.mode in ('sensitivity', 'all'):
-        missed, res = sensitivity()
-        with open(os.path.join(ROOT, 'mutants', 'last_report.json'), 'w') as f:
-            json.dump(res, f, indent=1)
+        only = set(args.only.split(',')) if getattr(args, 'only', None) else None
+        missed, res = sensitivity(only)
+        if not only:
+            with open(os.path.join(ROOT, 'mutants', 'last_report.json'),
+                      'w') as f:
+                json.dump(res, f, indent=1)
         if missed:
             print(f'SELFTEST sensitivity: {missed} mutants not caught')
             return 2
